@@ -4,7 +4,9 @@ import json, os, re, shutil, subprocess, sys, tempfile, time, hashlib
 VERIF = os.path.dirname(os.path.dirname(os.path.abspath(__file__)))
 SPEC = os.path.join(VERIF, "spec")
 OUT = os.path.join(VERIF, "out")
-EVID = os.path.join(VERIF, "evidence")
+# evidence describes /repo; a run against another tree (VERIF_REPO: seeded changes, self-test mutants) must not overwrite it
+EVID = os.path.join(VERIF, "evidence") if os.environ.get("VERIF_REPO", "/repo") == "/repo" or VERIF.startswith("/root/.vp/") else os.path.join(VERIF, "out", "evidence-other-tree")
+os.makedirs(EVID, exist_ok=True)
 sys.path.insert(0, os.path.join(VERIF, "tools"))
 import build  # noqa: E402
 
@@ -159,6 +161,42 @@ def run_driver(exe, scenarios, timeout=600, env=None, threads=1, mpi=0):
             except Exception:
                 pass
     return recs, p.returncode, p.stderr
+
+
+def run_driver_ranks(exe, scenarios, nranks, timeout=600, env=None, threads=1, tag="ranks"):
+    """The same scenarios on every rank of an mpiexec run (the library's collective steps run in lockstep).
+    Returns (per-rank record lists without Done lines, per-rank number of completed scenarios, rc, stderr tail)."""
+    import tempfile, shutil
+    d = tempfile.mkdtemp(prefix="ranks-", dir=os.path.join(VERIF, "build"))
+    try:
+        sf = os.path.join(d, "scen.ndjson")
+        with open(sf, "w") as f:
+            for s in scenarios:
+                f.write(json.dumps(s, separators=(",", ":")) + "\n")
+        e = dict(os.environ)
+        e.update({"OMP_NUM_THREADS": str(threads), "PV_SCEN": sf, "PV_OUT": os.path.join(d, "out"),
+                  "OMPI_ALLOW_RUN_AS_ROOT": "1", "OMPI_ALLOW_RUN_AS_ROOT_CONFIRM": "1", "OMPI_MCA_rmaps_base_oversubscribe": "1",
+                  "OMPI_MCA_btl_vader_single_copy_mechanism": "none"})
+        if env:
+            e.update({k: str(v) for k, v in env.items()})
+        p = subprocess.run(["timeout", "-k", "5", str(timeout), "mpiexec", "--oversubscribe", "-np", str(nranks), exe],
+                           stdin=subprocess.DEVNULL, stdout=subprocess.PIPE, stderr=subprocess.PIPE, text=True, env=e, errors="replace")
+        per, done = [], []
+        for r in range(nranks):
+            recs = []
+            fn = os.path.join(d, "out.%d" % r)
+            if os.path.exists(fn):
+                for line in open(fn, errors="replace"):
+                    if line.startswith("{"):
+                        try:
+                            recs.append(json.loads(line))
+                        except Exception:
+                            pass
+            done.append(len([x for x in recs if x.get("e") == "Done"]))
+            per.append([x for x in recs if x.get("e") != "Done"])
+        return per, done, p.returncode, p.stderr[-1500:]
+    finally:
+        shutil.rmtree(d, ignore_errors=True)
 
 
 def sanitizer_summary(err):
